@@ -366,7 +366,14 @@ func load(T types.Type, addr *value) value {
 	case *types.Basic:
 		if T.Kind() == types.String {
 			if sl, ok := (*addr).([]value); ok {
-				return normStr(symstr(append([]value{}, sl...)))
+				// a string obtained by casting *[]byte to *string (the
+				// zero-copy idiom of TakeRedactableString): the view
+				// ALIASES the slice's cells, so a later write to the slice
+				// is visible through the string, as on the real machine
+				if len(sl) == 0 {
+					return ""
+				}
+				return symstr(sl)
 			}
 		}
 		return *addr
